@@ -145,7 +145,8 @@ def conclude(prop, tier, seed, mod, cresults, obligations, wall, extra_info=None
     fully = {}
     for cr in cresults:
         k = cr.contract.key()
-        fully[k] = cr.status == 'ok' and cr.obligations and all(o.status == 'proved' for o in cr.obligations)
+        real = [o for o in cr.obligations if o.kind != 'cover']  # a single contradictory path is harmless (incomplete pruning); vacuity of the whole contract is an error elsewhere
+        fully[k] = cr.status == 'ok' and bool(real) and all(o.status == 'proved' for o in real)
 
     lines = []
     violations = []
